@@ -60,6 +60,9 @@ class Tr:
     def z(self, e):
         if isinstance(e, ast.Constant) and isinstance(e.value, int) and not isinstance(e.value, bool):
             return zlit(e.value)
+        if (isinstance(e, ast.UnaryOp) and isinstance(e.op, ast.USub) and isinstance(e.operand, ast.Constant)
+                and isinstance(e.operand.value, int) and not isinstance(e.operand.value, bool)):
+            return zlit(-e.operand.value)
         if isinstance(e, ast.Name):
             if e.id in self.vars:
                 return self.vars[e.id]
